@@ -125,7 +125,7 @@ fn bincode_decode<const B: usize>() {
 /// all). `Vec::resize` is replaced by an observer that checks the requested size against
 /// the input size (symbolic-size allocations are what the solver cannot execute).
 #[kani::proof]
-#[kani::unwind(12)]
+#[kani::unwind(3)] // no loop on this path iterates: with a larger bound CBMC unrolls the (unreachable) UTF-8 validation of a symbolic-length slice until it runs out of memory
 #[kani::stub(alloc::fmt::format, fmt_format_stub)]
 #[kani::stub(std::backtrace::Backtrace::capture, backtrace_stub)]
 #[kani::stub(std::vec::Vec::resize, resize_guard)]
@@ -145,6 +145,6 @@ proof!(c06_string_b6, 12, { string_decode::<6>() });
 proof!(c06_bytes_b4, 8, { bytes_decode::<4>() });
 proof!(c06_bincode_b0, 8, { bincode_decode::<0>() });
 proof!(c06_bincode_b7, 12, { bincode_decode::<7>() });
-proof!(c06_bincode_b8, 12, { bincode_decode::<8>() });
-proof!(c06_bincode_b12, 16, { bincode_decode::<12>() });
+proof!(c06_bincode_b8, 3, { bincode_decode::<8>() });
+proof!(c06_bincode_b12, 7, { bincode_decode::<12>() });
 proof!(c06_bincode_b17, 22, { bincode_decode::<17>() });
